@@ -192,7 +192,9 @@ class ShardCtx:
         from pbt.guard import HangSuspected, wall_guard
 
         own_guard = getattr(importlib.import_module("pbt.props.%s" % self.prop.lower()), "OWN_GUARD", False)
-        case_timeout = int(os.environ.get("VERIF_CASE_TIMEOUT", "60"))
+        # the alarm only exists to survive runaway mutants; legitimate thorough-tier cases (large budgets,
+        # per-round snapshots of thousands of cells) may take minutes on a loaded machine
+        case_timeout = int(os.environ.get("VERIF_CASE_TIMEOUT", "60" if self.tier == "quick" else "900"))
         phases = [Phase.generate]
         if use_target:
             phases.append(Phase.target)
